@@ -771,9 +771,9 @@ func (p *pageResult) reach(text, context string) {
 func checkHTML(sh *pageShape, body []byte) (*pageResult, error) {
 	p := &pageResult{reached: map[string]bool{}, contexts: map[string]bool{}, pre: map[string]string{}}
 	z := html.NewTokenizer(bytes.NewReader(body))
-	raw := ""     // script / style / title while inside one
-	curPre := ""  // id of the <pre> we are in (print page)
-	inSpan := 0   // depth of <span> inside that <pre>
+	raw := ""    // script / style / title while inside one
+	curPre := "" // id of the <pre> we are in (print page)
+	inSpan := 0  // depth of <span> inside that <pre>
 	sawTag := map[string]bool{}
 	inBold := false
 	for {
@@ -1019,11 +1019,11 @@ func legit418(u *url.URL) string {
 
 type c36Env struct {
 	commitTplFails bool // some repository has a commit URL template that cannot be executed
-	rec   *kit.Recorder
-	shape *pageShape
-	c     *c36Case
-	mux   *http.ServeMux
-	ckey  string
+	rec            *kit.Recorder
+	shape          *pageShape
+	c              *c36Case
+	mux            *http.ServeMux
+	ckey           string
 }
 
 // fetch requests one page and applies the oracle.
